@@ -20,6 +20,10 @@ structure Cfg where
   /-- flv.Muxer.process waits for the video parameter sets before it writes the sequence headers
       (pinned tree: built on the first frame of any kind; `sps[1]` panics while the SPS is unknown) -/
   flvWaitsForParameterSets : Bool
+  /-- flv.Muxer.videoMetaReady additionally wants the SPS validated (`Width != 0`: by the SDP parser
+      or the depacketizer) or decodable; before the repair any SPS of ≥ 4 bytes was good enough, so a
+      truncated in-band SPS + an audio frame froze an undecodable configuration into the FLV output -/
+  flvValidatesSps : Bool
   /-- mpegts aacPacketizer.Packetize returns an error when the AudioSpecificConfig could not be
       decoded (pinned tree: nil pointer dereference) -/
   tsAacChecked : Bool
@@ -50,13 +54,14 @@ def isKey (c : VCodec) (payload : Bytes) : Bool :=
     | .h264 => (b &&& 0x1f) = 5
     | .h265 => nalType265 b ≥ 16 && nalType265 b ≤ 21
 
-def seqReady (c : VCodec) (m : VMeta) : Bool :=
-  match c with
-  | .h264 => m.sps.length ≥ 4 && !m.pps.isEmpty
-  | .h265 => !m.vps.isEmpty && !m.sps.isEmpty && !m.pps.isEmpty
+def seqReady (cfg : Cfg) (spsOk : Bytes → Bool) (c : VCodec) (m : VMeta) : Bool :=
+  (match c with
+   | .h264 => m.sps.length ≥ 4 && !m.pps.isEmpty
+   | .h265 => !m.vps.isEmpty && !m.sps.isEmpty && !m.pps.isEmpty)
+  && (!cfg.flvValidatesSps || m.widthKnown || spsOk m.sps)
 
 /-- one iteration of flv.Muxer.process; `m` is the stream's VideoMeta as the worker sees it -/
-def flvStep (cfg : Cfg) (c : VCodec) (hasAac : Bool) (m : VMeta) (s : FlvSt) (f : Frame) : FlvSt × List Tag × Status :=
+def flvStep (cfg : Cfg) (spsOk : Bytes → Bool) (c : VCodec) (hasAac : Bool) (m : VMeta) (s : FlvSt) (f : Frame) : FlvSt × List Tag × Status :=
   if !s.alive then (s, [], .ok)
   else
     let body : List Tag :=
@@ -66,7 +71,7 @@ def flvStep (cfg : Cfg) (c : VCodec) (hasAac : Bool) (m : VMeta) (s : FlvSt) (f 
       (match f.audio, f.payload with
         | false, [] => ({ s with alive := false }, [], .panic)       -- frame.Payload[0]
         | _, _ => (s, body, .ok))
-    else if cfg.flvWaitsForParameterSets && !seqReady c m then (s, [], .ok)    -- frame dropped
+    else if cfg.flvWaitsForParameterSets && !seqReady cfg spsOk c m then (s, [], .ok)    -- frame dropped
     else
       -- muxMetadataTag; vp.PacketizeSequenceHeader; ap.PacketizeSequenceHeader
       match c with
@@ -127,11 +132,11 @@ structure St where
   ts : TsSt := {}
 deriving Repr, Inhabited
 
-def feedFlv (cfg : Cfg) (c : VCodec) (hasAac : Bool) (m : VMeta) : FlvSt → List Frame → FlvSt × List Tag
+def feedFlv (cfg : Cfg) (spsOk : Bytes → Bool) (c : VCodec) (hasAac : Bool) (m : VMeta) : FlvSt → List Frame → FlvSt × List Tag
   | s, [] => (s, [])
   | s, f :: fs =>
-    let (s1, ts, _) := flvStep cfg c hasAac m s f
-    let (s2, us) := feedFlv cfg c hasAac m s1 fs
+    let (s1, ts, _) := flvStep cfg spsOk c hasAac m s f
+    let (s2, us) := feedFlv cfg spsOk c hasAac m s1 fs
     (s2, ts ++ us)
 
 def feedTs (cfg : Cfg) (ascOk : Bool) (m : VMeta) : TsSt → List Frame → TsSt × List TsFrame
@@ -146,7 +151,7 @@ def feedTs (cfg : Cfg) (ascOk : Bool) (m : VMeta) : TsSt → List Frame → TsSt
 def step (dc : Depack.Cfg) (cfg : Cfg) (spsOk : Bytes → Bool) (ascOk : Bool) (hasTs : Bool) (s : St) (i : In) :
     St × List Frame × List Tag × List TsFrame :=
   let (d, fs, _) := demuxStep dc spsOk s.demux i
-  let (fl, tags) := feedFlv cfg d.codec d.hasAac d.v.vmeta s.flv fs
+  let (fl, tags) := feedFlv cfg spsOk d.codec d.hasAac d.v.vmeta s.flv fs
   let (t, tsf) := if hasTs then feedTs cfg ascOk d.v.vmeta s.ts fs else (s.ts, [])
   ({ demux := d, flv := fl, ts := t }, fs, tags, tsf)
 
